@@ -13,7 +13,7 @@ static int L;
 typedef struct { int n, max; int e[MAXL + 2]; } model_t;
 static sm_spec_t SP;
 
-enum { OP_ADDFIRST, OP_ADDLAST, OP_ADDAT, OP_POPAT, OP_REMOVEAT, OP_POPFIRST, OP_POPLAST, OP_REMOVEFIRST, OP_REMOVELAST, OP_REVERSE, OP_CLEAR, OP_SETSIZE };
+enum { OP_ADDFIRST, OP_ADDLAST, OP_ADDAT, OP_POPAT, OP_REMOVEAT, OP_POPFIRST, OP_POPLAST, OP_REMOVEFIRST, OP_REMOVELAST, OP_REVERSE, OP_CLEAR, OP_SETSIZE, OP_GETAT };
 typedef struct { int kind, i, e; const char *label; } op_t;
 static op_t OPS[400]; static int NOPS;
 static const char *op_label(int op) { return OPS[op].label; }
@@ -121,6 +121,14 @@ static int apply(qlist_t *l, model_t *m, const op_t *op, int check, const char *
             if (ok) m_delete(m, idx);
             break;
         }
+        case OP_GETAT: {   /* a read as an operation: it changes nothing the model knows, but it may move whatever the implementation remembers between calls */
+            int i = op->i; if (i < -n - 2 || i > n + 2) return 1;
+            int idx = i < 0 ? n + i : i; size_t sz = 0; void *d = l->getat(l, i, &sz, false);
+            if (check) { if (idx < 0 || idx >= n) { if (d) vc_viol("seq:get-out-of-range", "%s: getat(%d) on %d elements returned data", after, i, n); }
+                         else if (!d) vc_viol("seq:get-missing", "%s: getat(%d) on %d elements returned NULL", after, i, n);
+                         else if (sz != EL[m->e[idx]].n || memcmp(d, EL[m->e[idx]].b, sz)) vc_viol("seq:get-value", "%s: getat(%d) returned element %d, expected %d", after, i, elid(d, sz), m->e[idx]); }
+            break;
+        }
         case OP_REVERSE: l->reverse(l); for (int a = 0, b = n - 1; a < b; a++, b--) { int t = m->e[a]; m->e[a] = m->e[b]; m->e[b] = t; } break;
         case OP_CLEAR: l->clear(l); m->n = 0; break;
         case OP_SETSIZE: { size_t old = l->setsize(l, op->i); if (check && (int)old != m->max) vc_viol("seq:setsize", "%s: setsize returned %zu, previous limit was %d", after, old, m->max); m->max = op->i; break; }
@@ -134,8 +142,10 @@ static int transition(const uint16_t *hist, int d, int opi, char *ckey, int verb
     for (int i = 0; i < d; i++) { snprintf(after, sizeof after, "step %d (op %d)", i, hist[i]); apply(l, &m, &OPS[hist[i]], verbose, after); if (verbose) observe(l, &m, after); }
     vc_asan_check();   /* reports raised by the history prefix belong to the transitions that ended in those ops */
     snprintf(after, sizeof after, "op %d", opi);
+    if (!sm_hist_mode) {
     for (int i = 0; i < m.n; i++) { size_t sz = 0; void *d = l->getat(l, i, &sz, true); if (d) sm_hold(d, EL[m.e[i]].b, EL[m.e[i]].n, "qlist_getat(newmem) taken before the operation"); }
     if (m.n) { size_t sz = 0; void *a = l->toarray(l, &sz); if (a) sm_hold(a, a, sz, "qlist_toarray taken before the operation"); }
+    }
     if (apply(l, &m, &OPS[opi], 1, after) == 1) { sm_release_held(); l->free(l); return 1; }
     canon(l, ckey, after);
     /* the canonical key must equal what the model predicts: a refused call changed nothing, an accepted one exactly one position */
@@ -160,13 +170,19 @@ static void setup(void) {
     OPS[NOPS++] = (op_t){OP_REMOVEFIRST, 0, 0, "qlist_removefirst"}; OPS[NOPS++] = (op_t){OP_REMOVELAST, 0, 0, "qlist_removelast"};
     OPS[NOPS++] = (op_t){OP_REVERSE, 0, 0, "qlist_reverse"}; OPS[NOPS++] = (op_t){OP_CLEAR, 0, 0, "qlist_clear"};
     for (int mx = 0; mx <= 3; mx++) OPS[NOPS++] = (op_t){OP_SETSIZE, mx, 0, "qlist_setsize"};
+    for (int i = -L - 2; i <= L + 2; i++) OPS[NOPS++] = (op_t){OP_GETAT, i, 0, "qlist_getat"};
     snprintf(SP.prefix, sizeof SP.prefix, "list:%d:", L);
     SP.nops = NOPS; SP.label = op_label; SP.transition = transition; SP.initial = initial;
 }
 static int worker(int argc, char **argv) {
-    if (vc_replay_key) { int off; if (sscanf(vc_replay_key, "list:%d:%n", &L, &off) < 1) return 1; setup(); vc_case("replay", vc_replay_key); return sm_replay(&SP, vc_replay_key + off); }
+    if (vc_replay_key) { int off; if (sscanf(vc_replay_key, "list:%d:%n", &L, &off) < 1) return 1; setup(); if (argc >= 3 && !strcmp(argv[2], "hist")) sm_hist_mode = 1; vc_case("replay", vc_replay_key); return sm_replay(&SP, vc_replay_key + off); }
     if (argc < 2) return 1;
     L = atoi(argv[1]); setup();
+    if (argc >= 7 && !strcmp(argv[2], "hist")) {   /* list <L> hist <n> <depth> <shard> <nshards>: seed state of n elements (addlast), then every history of <= depth operations, unmerged */
+        int n = atoi(argv[3]); uint16_t seed[16];
+        for (int i = 0; i < n && i < 16; i++) { int want = i % 3; for (int o = 0; o < NOPS; o++) if (OPS[o].kind == OP_ADDLAST && OPS[o].e == want) seed[i] = (uint16_t)o; }
+        return sm_histories(&SP, seed, n, atoi(argv[4]), atol(argv[5]), atol(argv[6]));
+    }
     sm_search(&SP, 0);
     return 0;
 }
